@@ -413,22 +413,19 @@ Fixpoint rxn_unpack_mols (fuel : nat) (data : list Z) (sh : Z) : pyres (list unp
       end
   end.
 
-(* [fixed] selects the repaired role split (molecules[r:r+a], molecules[r+a:]); the original used
-   molecules[-products:] and molecules[reactants:-products], wrong when products = 0 *)
-Definition rxn_split {A} (fixed : bool) (mols : list A) (r a p : Z) : list A * list A * list A :=
+(* role split by counts: molecules[:r], molecules[r:r+a], molecules[r+a:]  (the code used molecules[-products:] and
+   molecules[reactants:-products] before the fix: commit 8a0848e, wrong when products = 0) *)
+Definition rxn_split {A} (mols : list A) (r a p : Z) : list A * list A * list A :=
   let len := Z.of_nat (length mols) in
-  if fixed then (py_slice mols 0 r, py_slice mols r (r + a), py_slice mols (r + a) len)
-  else (py_slice mols 0 r,
-        (if p =? 0 then py_slice mols r 0 else py_slice mols r (- p)),
-        (if p =? 0 then mols else py_slice mols (- p) len)).
+  (py_slice mols 0 r, py_slice mols r (r + a), py_slice mols (r + a) len).
 
-Definition rxn_unpack (fixed : bool) (data : list Z) : pyres (list unpacked * list unpacked * list unpacked) :=
+Definition rxn_unpack (data : list Z) : pyres (list unpacked * list unpacked * list unpacked) :=
   match getb data 0, getb data 1, getb data 2, getb data 3 with
   | Some h, Some r, Some a, Some p =>
       if negb (h =? 1) then Err ValueError
       else match rxn_unpack_mols (Z.to_nat (r + a + p)) data 4 with
            | Err e => Err e
-           | Ok mols => Ok (rxn_split fixed mols r a p)
+           | Ok mols => Ok (rxn_split mols r a p)
            end
   | Some h, _, _, _ => if negb (h =? 1) then Err ValueError else Err IndexError
   | _, _, _, _ => Err IndexError
@@ -473,7 +470,7 @@ Fixpoint rxn_len_walk (data : list Z) (v : Z) (count : nat) (sh : Z) : pyres (li
       end
   end.
 
-Definition rxn_pack_len (fixed : bool) (data : list Z) : pyres (list Z * list Z * list Z) :=
+Definition rxn_pack_len (data : list Z) : pyres (list Z * list Z * list Z) :=
   match getb data 0, getb data 1, getb data 2, getb data 3 with
   | Some h, Some r, Some a, Some p =>
       if negb (h =? 1) then Err ValueError
@@ -484,7 +481,7 @@ Definition rxn_pack_len (fixed : bool) (data : list Z) : pyres (list Z * list Z 
                | Err e => Err e
                | Ok (ms, sh) =>
                    let ms := if (r =? 0) && (a =? 0) && (p =? 0) then ms else ms ++ [Z.shiftr (be3 data sh) 12] in
-                   Ok (rxn_split fixed ms r a p)
+                   Ok (rxn_split ms r a p)
                end
            end
   | Some h, _, _, _ => if negb (h =? 1) then Err ValueError else Err IndexError
